@@ -264,7 +264,7 @@ func ruleTableBeforeWalRemove(r *Report) {
 	}
 	o := &order{r, r.P}
 	A := CallsIn(fn, Suffix("MemStoreI.FlushWithTombstones", "MemStore.FlushWithTombstones", "MemStoreI.Flush", "MemStore.Flush"))
-	B := CallsIn(fn, Keys("os.Remove", "os.RemoveAll"))
+	B := removalSites(r.P, fn)
 	o.OnlyAfterSuccess(rule, rule+"/simpledb.executeFlush/os.Remove", fn, "the table flush", A, "removing the WAL file", B, nil)
 }
 
@@ -556,6 +556,9 @@ var truncationSet = []string{"io.EOF", "io.ErrUnexpectedEOF"}
 
 // R-torn: WAL replay classifies every truncation-class error of Open and ReadNext as end of log.
 func ruleTorn(r *Report) {
+	if _, done := r.RuleText["truncation-identity"]; !done {
+		ruleTruncationIdentity(r)
+	}
 	const rule = "torn"
 	r.Rule(rule, 4, "in WAL replay, each truncation-class error (io.EOF, io.ErrUnexpectedEOF) of reader.Open and reader.ReadNext reaches a non-failing continuation: a kill can leave a header-less newest file or a record cut by a buffer flush")
 	p := r.P
@@ -593,6 +596,53 @@ func ruleTorn(r *Report) {
 				}
 			}
 		}
+	}
+}
+
+// R-truncation-identity: the truncation errors that replay classifies (io.EOF / io.ErrUnexpectedEOF) must arrive
+// unchanged or wrapped with %w from the low-level reads up to ReadNext / Open.
+func ruleTruncationIdentity(r *Report) {
+	const rule = "truncation-identity"
+	r.Rule(rule, 5, "on the sequential reader's Open / ReadNext path every error of io.ReadFull, binary.ReadUvarint, ReadByte and of the header reader is returned itself or wrapped with %w (never reformatted or replaced), so errors.Is in the WAL replayer can recognise a torn tail")
+	p := r.P
+	ef := newErrflow(r, rule)
+	ef.strictWrap = true
+	ef.extraClass = map[string]map[string]bool{
+		// the zero-padded tail of block-aligned files: a marker mismatch followed by zeros only is end-of-file
+		"recordio.FileReader.ReadNext": {"recordio.MagicNumberMismatchErr": true},
+	}
+	n := 0
+	for _, k := range []string{"recordio.FileReader.Open", "recordio.FileReader.ReadNext", "recordio.readRecordHeaderV4", "recordio.checksumByteReader.ReadByte", "recordio.CountingBufferedReader.ReadByte"} {
+		fn := p.Func(k)
+		if fn == nil || fn.Blocks == nil {
+			continue
+		}
+		r.Saw(fn)
+		eachInstr(fn, func(s Site) {
+			c, ok := s.Instr.(*ssa.Call)
+			if !ok {
+				return
+			}
+			ck := CalleeKey(c)
+			if !(ck == "io.ReadFull" || ck == "encoding/binary.ReadUvarint" || strings.HasSuffix(ck, ".ReadByte") || ck == "recordio.readRecordHeaderV4") {
+				return
+			}
+			vals, hasErr, _ := errResults(c)
+			if !hasErr || len(vals) == 0 {
+				return
+			}
+			n++
+			key := ef0uniq(rule + "/" + k + "/" + ck)
+			v, detail := ef.explore(fn, s, vals)
+			if v == Discharged {
+				r.OK(rule, key, c.Pos(), "identity preserved")
+			} else {
+				r.Bad(rule, key, c.Pos(), "a truncation-class error loses its identity on the way up: "+detail)
+			}
+		})
+	}
+	if n == 0 {
+		r.Missing(rule, rule+"/sites", "no low-level read found on the Open/ReadNext path")
 	}
 }
 
@@ -920,7 +970,7 @@ func ruleIdempotent(r *Report) {
 			default:
 				// os.Remove / os.Mkdir: allowed only if guarded by a condition that is constant-false on every
 				// recovery call path (walPath != "" with the recovery literal leaving walPath zero)
-				if guardedOffRecovery(p, fn, s) {
+				if guardedOffRecoveryLifted(p, fn, s, 0) {
 					r.OK(rule, key, s.Pos(), "guarded by walPath != \"\"; the recovery call site passes a literal without walPath")
 				} else {
 					r.Bad(rule, key, s.Pos(), ck+" is not repeatable: a second recovery attempt after a kill fails on it")
@@ -941,6 +991,27 @@ func ef0uniq(k string) string {
 		return fmt.Sprintf("%s#%d", k, n)
 	}
 	return k
+}
+
+// guardedOffRecoveryLifted: the site is guarded off the recovery path in its own function, or every call site of its
+// function is (helpers such as removeWalFilesUpTo are only called under the walPath != "" guard).
+func guardedOffRecoveryLifted(p *Prog, fn *ssa.Function, s Site, depth int) bool {
+	if guardedOffRecovery(p, fn, s) {
+		return true
+	}
+	if depth > 2 {
+		return false
+	}
+	n := 0
+	for _, caller := range p.FuncsOfPkg("simpledb") {
+		for _, cs := range CallsIn(caller, Keys(FuncKey(fn))) {
+			n++
+			if !guardedOffRecoveryLifted(p, caller, cs, depth+1) {
+				return false
+			}
+		}
+	}
+	return n > 0
 }
 
 // guardedOffRecovery: site s (in executeFlush) is control dependent on `X != ""` where X is the walPath field of the
@@ -1122,5 +1193,206 @@ func ruleFinishOnlyVerified(r *Report) {
 	}
 	if !found {
 		r.Missing(rule, rule+"/repairCompactions", "flag read not found in repairCompactions")
+	}
+}
+
+// R-fresh-wal-dir: the appender restarts numbering at 000000 and replay tolerates a torn tail only in the newest
+// file, so recovery must hand the new WAL an empty directory on every path.
+func ruleFreshWalDir(r *Report) {
+	const rule = "fresh-wal-dir"
+	r.Rule(rule, 2, "recovery creates the new write-ahead log only after the WAL directory was removed and recreated successfully, on every path (the appender restarts numbering at zero; a surviving higher-numbered file would be taken for the newest one)")
+	fn := r.NeedFunc(rule, "simpledb.DB.replayAndSetupWriteAheadLog")
+	if fn == nil {
+		return
+	}
+	o := &order{r, r.P}
+	W := CallsIn(fn, Keys("wal.NewWriteAheadLog", "wal.NewAppender"))
+	R := CallsIn(fn, Keys("os.RemoveAll"))
+	M := CallsIn(fn, Keys("os.MkdirAll", "os.Mkdir"))
+	// only the MkdirAll calls that come after a RemoveAll count for the second obligation
+	var M2 []Site
+	for _, m := range M {
+		for _, rm := range R {
+			if precedes(rm, m) {
+				M2 = append(M2, m)
+			}
+		}
+	}
+	o.OnlyAfterSuccess(rule, rule+"/simpledb.DB.replayAndSetupWriteAheadLog/wipe-before-new-wal", fn, "removing the WAL directory", R, "creating the new WAL", W, nil)
+	o.OnlyAfterSuccess(rule, rule+"/simpledb.DB.replayAndSetupWriteAheadLog/recreate-before-new-wal", fn, "recreating the WAL directory", M2, "creating the new WAL", W, nil)
+}
+
+// R-inputs-validated: nobody inside simpledb switches off the load-time validation of the tables it opens
+// (compaction inputs are read with per-read checking off, so load-time validation is their only integrity check).
+func ruleInputsValidated(r *Report) {
+	const rule = "inputs-validated"
+	r.Rule(rule, 3, "every table reader simpledb opens (recovery, flush, compaction inputs, swap) keeps load-time validation on: SkipHashCheckOnLoad is never used inside simpledb")
+	p := r.P
+	n := 0
+	for _, fn := range p.FuncsOfPkg("simpledb") {
+		opens := CallsIn(fn, Keys("sstables.NewSSTableReader"))
+		if len(opens) == 0 {
+			continue
+		}
+		r.Saw(fn)
+		for _, o := range opens {
+			n++
+			key := ef0uniq(rule + "/" + FuncKey(fn))
+			skip := false
+			for _, v := range varargValues(o.Call()) {
+				if c, ok := v.(*ssa.Call); ok && CalleeKey(c) == "sstables.SkipHashCheckOnLoad" {
+					skip = true
+				}
+			}
+			// any call of the option in this function at all
+			if len(CallsIn(fn, Keys("sstables.SkipHashCheckOnLoad"))) > 0 {
+				skip = true
+			}
+			if skip {
+				r.Bad(rule, key, o.Pos(), "a table is opened with load-time validation switched off: a damaged input record is merged / served without any integrity check")
+			} else {
+				r.OK(rule, key, o.Pos(), "opened with load-time validation")
+			}
+		}
+	}
+	if n == 0 {
+		r.Missing(rule, rule+"/sites", "simpledb opens no table reader")
+	}
+}
+
+// removesFiles: fn (or a module function it calls, two levels) calls os.Remove / os.RemoveAll.
+func removesFiles(p *Prog, fn *ssa.Function, depth int) bool {
+	if fn == nil || fn.Blocks == nil || depth > 2 {
+		return false
+	}
+	if len(CallsIn(fn, Keys("os.Remove", "os.RemoveAll"))) > 0 {
+		return true
+	}
+	res := false
+	eachInstr(fn, func(s Site) {
+		if c, ok := s.Instr.(*ssa.Call); ok {
+			if sc := c.Call.StaticCallee(); sc != nil && inModule(sc) && sc != fn && removesFiles(p, sc, depth+1) {
+				res = true
+			}
+		}
+	})
+	return res
+}
+
+// removalSites: calls in fn that remove files, directly or through a module helper.
+func removalSites(p *Prog, fn *ssa.Function) []Site {
+	var out []Site
+	eachInstr(fn, func(s Site) {
+		c, ok := s.Instr.(*ssa.Call)
+		if !ok {
+			return
+		}
+		k := CalleeKey(c)
+		if k == "os.Remove" || k == "os.RemoveAll" {
+			out = append(out, s)
+			return
+		}
+		if sc := c.Call.StaticCallee(); sc != nil && inModule(sc) && removesFiles(p, sc, 0) && strings.HasPrefix(FuncKey(sc), "simpledb.remove") {
+			out = append(out, s)
+		}
+	})
+	return out
+}
+
+// R-wal-reclaim: when the configured WAL can rotate on its own, a flush must reclaim every WAL file up to the
+// rotated one — otherwise an auto-rotated file survives its memstore's flush and is replayed over newer tables
+// at the next Open.
+func ruleWalReclaim(r *Report) {
+	const rule = "wal-reclaim"
+	r.Rule(rule, 1, "the appender can rotate by itself (size limit) and does not report those files; so the flusher must remove every WAL file up to the one returned by the manual rotation (directory sweep with a name comparison), or auto-rotation must be impossible by construction (limit = max uint64)")
+	p := r.P
+	key := rule + "/simpledb.executeFlush"
+	// (1) can the appender rotate on its own, dropping the path?
+	auto := false
+	for _, fn := range p.FuncsOfPkg("wal") {
+		for _, s := range CallsIn(fn, Keys("wal.Appender.Rotate")) {
+			if FuncKey(fn) == "wal.Appender.Rotate" {
+				continue
+			}
+			used := false
+			for _, rf := range *s.Instr.(ssa.Value).Referrers() {
+				if ex, ok := rf.(*ssa.Extract); ok && ex.Index == 0 && len(*ex.Referrers()) > 0 {
+					used = true
+				}
+			}
+			if !used {
+				auto = true
+			}
+		}
+	}
+	// (1b) the limit simpledb configures
+	unlimited := false
+	for _, fn := range p.FuncsOfPkg("simpledb") {
+		for _, s := range CallsIn(fn, Keys("wal.MaximumWalFileSizeBytes")) {
+			if c, ok := s.Call().Common().Args[0].(*ssa.Const); ok && c.Uint64() == ^uint64(0) {
+				unlimited = true
+			}
+		}
+	}
+	if !auto || unlimited {
+		r.OK(rule, key, 0, "the WAL cannot create files the flusher does not know about")
+		return
+	}
+	// (2) how does the flusher remove WAL files?
+	fn := r.NeedFunc(rule, "simpledb.executeFlush")
+	if fn == nil {
+		return
+	}
+	sweep := false
+	var pos Site
+	for _, f := range moduleReach(p, []*ssa.Function{fn}) {
+		pk := fnPkg(f)
+		if pk == nil || shortPkg(pk.Path()) != "simpledb" {
+			continue
+		}
+		rm := CallsIn(f, Keys("os.Remove", "os.RemoveAll"))
+		if len(rm) == 0 {
+			continue
+		}
+		pos = rm[0]
+		lists := CallsIn(f, Keys("os.ReadDir", "path/filepath.Glob", "path/filepath.Walk", "path/filepath.WalkDir", "os.File.Readdirnames", "os.File.ReadDir"))
+		if len(lists) == 0 {
+			continue
+		}
+		for _, x := range rm {
+			// in a loop, guarded by a string ordering comparison
+			inLoop := reachFrom(x.Block, nil)[x.Block] && func() bool {
+				for _, su := range x.Block.Succs {
+					if reachFrom(su, nil)[x.Block] {
+						return true
+					}
+				}
+				return false
+			}()
+			ordered := false
+			for _, b := range liveBlocks(f) {
+				if len(b.Instrs) == 0 || !b.Dominates(x.Block) {
+					continue
+				}
+				if iff, ok := b.Instrs[len(b.Instrs)-1].(*ssa.If); ok {
+					if bo, ok := iff.Cond.(*ssa.BinOp); ok {
+						if bt, ok := bo.X.Type().Underlying().(*types.Basic); ok && bt.Info()&types.IsString != 0 {
+							switch bo.Op {
+							case token.LEQ, token.LSS, token.GEQ, token.GTR:
+								ordered = true
+							}
+						}
+					}
+				}
+			}
+			if inLoop && ordered {
+				sweep = true
+			}
+		}
+	}
+	if sweep {
+		r.OK(rule, key, pos.Pos(), "the flush sweeps every WAL file up to the rotated one")
+	} else {
+		r.Bad(rule, key, fn.Pos(), "the WAL rotates on its own when a file reaches its size limit (the path is dropped in checkSizeAndRotate) but the flush removes only the one path its own rotation returned: an auto-rotated file survives the flush of its memstore and is replayed over newer tables at the next Open — overwritten values come back, deleted keys reappear (input: more than limit bytes logged while the memstore estimate does not grow, e.g. same-size overwrites of one key)")
 	}
 }
